@@ -247,3 +247,17 @@ claim("C30",
       category="other",
       technique="contract-based: postconditions on the mechanically extracted atomic section (pyvc + z3), structural "
                 "obligations on the AST of the real methods")
+
+claim("C09",
+      "Reducer side of collect_events, as two variant contracts on _process_step_result_tick (the plain contract's "
+      "precondition and invariants plus the result shapes collect_events produces): (a) an event offered to a buffer "
+      "is recorded exactly once, at the end of its buffer, or - when the buffer has grown since the invocation's "
+      "snapshot - not at all, in which case the invocation is re-run with a fresh snapshot and offers it again "
+      "(neither lost nor counted twice), other buffers untouched: discharged for every state and buffer content; (b) "
+      "on completion the code drops the whole buffer (proved), so the clause taken from the statement 'events that "
+      "arrived after the completing invocation's snapshot stay in the buffer' fails: recorded known finding, "
+      "reproduced natively on every run.",
+      "InternalContext.collect_events itself (Counter arithmetic over event types: which events complete a set, the "
+      "order of the returned list) is not under contract; result lists that mix several collect actions in one tick "
+      "are outside the two shapes.",
+      category="other")
